@@ -1,17 +1,16 @@
-SPECIFICATION Spec
+SPECIFICATION CSpec
 CONSTANTS
-  Repos = {"r1", "r2"}
-  Tags = {"t1"}
+  Repos = {"r1"}
+  Tags = {}
   Cids = {"b0", "b1", "b2", "img", "idx", "idy", "sub", "bad"}
   BlobIds = {"b1", "b2"}
   ManIds = {}
   Cat <- MCCat
   UploadIds = {"u1"}
   ImmChoices = {FALSE}
-  BlockSize = 8
+  BlockSize = 8192
   Pos <- MCPos
-INVARIANTS TypeOK TaggedPresent
-PROPERTIES FailedCallStoresNothing OnlyPushedAppears RefusedKeepsUploads CommitStoresSession
+  CoverKinds = {"PushBlobChunked", "Write", "Commit", "Cancel", "RawPatch", "RawPut", "RawStatus", "GetBlob", "DeleteBlob"}
 CONSTRAINT BufBound
-VIEW StateView
+VIEW CoverView
 CHECK_DEADLOCK FALSE
